@@ -1,59 +1,229 @@
-/-! Model/Nodegraph.lean (prototype) — bytes, counters and panics identical to the real Nodegraph on 600 cases -/
+/-!
+Model of `sourmash::sketch::nodegraph::Nodegraph` (src/core/src/sketch/nodegraph.rs) as the code is now.
+
+A table is a `FixedBitSet` (fixedbitset 0.4.2): a length in bits and `⌈length/32⌉` 32-bit blocks.  The
+block representation is part of the model because `save_to_writer` dumps the raw block slice.
+Bytes are `Nat`s below 256; `none` models a panic or an I/O error of the real code.
+
+Used by C15 (Bloom-filter behaviour: `count`, `get`, the `Update` impls, ratios, `_hash`) and by C16
+(file format: `save_to_writer`, `from_reader`).  No imports: this file is linked into native drivers.
+-/
 namespace NG
 
-/-- a table = (size, blocks of 32 bits, length ⌈size/32⌉) -/
+/-! ## FixedBitSet -/
+
+/-- a table = (length in bits, 32-bit blocks) -/
 structure Table where
   size : Nat
   blocks : List Nat
+deriving DecidableEq, Repr
 
+/-- `FixedBitSet::with_capacity`: `bits / 32 + (bits % 32 > 0)` blocks -/
 def nblocks (size : Nat) : Nat := (size + 31) / 32
+
 def Table.new (size : Nat) : Table := { size := size, blocks := List.replicate (nblocks size) 0 }
-def Table.get (t : Table) (bit : Nat) : Bool := ((t.blocks.getD (bit / 32) 0) >>> (bit % 32)) % 2 == 1
+
+/-- `FixedBitSet::contains`: `match data.get(bit / 32) { None => false, Some(b) => b & (1 << bit % 32) != 0 }` -/
+def Table.get (t : Table) (bit : Nat) : Bool := (t.blocks.getD (bit / 32) 0).testBit (bit % 32)
+
+/-- `FixedBitSet::put`: sets the bit, returns the previous value (the real one asserts `bit < length`;
+    every caller passes `h % length`) -/
 def Table.put (t : Table) (bit : Nat) : Table × Bool :=
-  let prev := t.get bit
-  ({ t with blocks := t.blocks.set (bit / 32) ((t.blocks.getD (bit / 32) 0) ||| (1 <<< (bit % 32))) }, prev)
-def popcount (n : Nat) : Nat := (List.range 32).foldl (fun c i => c + (n >>> i) % 2) 0
-def Table.count (t : Table) : Nat := t.blocks.foldl (fun c b => c + popcount b) 0
+  ({ t with blocks := t.blocks.set (bit / 32) ((t.blocks.getD (bit / 32) 0) ||| (1 <<< (bit % 32))) },
+   t.get bit)
+
+/-- `FixedBitSet::ones()` as a list: the set bits below the length, ascending -/
+def Table.ones (t : Table) : List Nat := (List.range t.size).filter t.get
+
+/-- `FixedBitSet::count_ones(..)`: the number of set bits below the length -/
+def Table.countOnes (t : Table) : Nat := t.ones.length
+
+/-- `FixedBitSet::union_with(other)`: grows to `other`'s length when that is larger, then ORs the
+    blocks pairwise (`zip`: the shorter block list decides how many) -/
+def orBlocks : List Nat → List Nat → List Nat
+  | x :: xs, y :: ys => (x ||| y) :: orBlocks xs ys
+  | xs, [] => xs
+  | [], _ => []
+
+def Table.unionWith (t o : Table) : Table :=
+  let t : Table := if o.size > t.size then
+      { size := o.size, blocks := t.blocks ++ List.replicate (nblocks o.size - t.blocks.length) 0 } else t
+  { t with blocks := orBlocks t.blocks o.blocks }
+
+/-- `a.intersection(b).count()`: bits of `a` that `b` contains -/
+def Table.interCount (a b : Table) : Nat := (a.ones.filter b.get).length
+/-- `a.union(b).count()`: `a.ones()` chained with `b.difference(a)` -/
+def Table.unionCount (a b : Table) : Nat := a.ones.length + (b.ones.filter (fun x => !a.get x)).length
+
+/-! ## Nodegraph -/
 
 structure G where
   tables : List Table
   ksize : Nat
   occupied : Nat := 0
   unique : Nat := 0
+deriving DecidableEq, Repr
 
+def G.new (sizes : List Nat) (ksize : Nat) : G := { tables := sizes.map Table.new, ksize := ksize }
+
+/-- `count`: every table sets bit `h % len`; `occupied_bins` counts new bits of table 0;
+    `unique_kmers` counts calls that set at least one new bit. -/
 def G.count (g : G) (h : Nat) : G × Bool :=
-  let (ts, isNew, occ, _) := g.tables.foldl (fun (acc : List Table × Bool × Nat × Nat) t =>
-      let (ts, isNew, occ, i) := acc
-      let (t', prev) := t.put (h % t.size)
-      (ts ++ [t'], isNew || !prev, (if !prev && i == 0 then occ + 1 else occ), i + 1)) ([], false, g.occupied, 0)
-  ({ g with tables := ts, occupied := occ, unique := if isNew then g.unique + 1 else g.unique }, isNew)
+  let rs := g.tables.map (fun t => t.put (h % t.size))
+  let isNew := rs.any (fun r => !r.2)
+  let occ := match rs with
+    | (_, false) :: _ => g.occupied + 1
+    | _ => g.occupied
+  ({ g with tables := rs.map (·.1), occupied := occ, unique := if isNew then g.unique + 1 else g.unique }, isNew)
 
+/-- `get`: 1 iff every table contains bit `h % len` -/
 def G.get (g : G) (h : Nat) : Nat := if g.tables.all (fun t => t.get (h % t.size)) then 1 else 0
 
-def le (n bytes : Nat) : List Nat := (List.range bytes).map (fun i => (n >>> (8*i)) % 256)
+/-- `Update<Nodegraph> for Nodegraph`: `src.update(&mut dst)`; `occupied_bins` becomes the sum over
+    the zipped pairs of (count of table 0, else 0) — 0 when there is no pair -/
+def zipUnion : List Table → List Table → List Table
+  | d :: ds, s :: ss => d.unionWith s :: zipUnion ds ss
+  | ds, [] => ds
+  | [], _ => []
 
-/-- save_to_writer; `none` models the out-of-bounds panic -/
-def G.save (g : G) : Option (List Nat) :=
-  let header := [0x4f, 0x58, 0x4c, 0x49, 4, 2] ++ le g.ksize 4 ++ [g.tables.length % 256] ++ le g.occupied 8
-  g.tables.foldl (fun (acc : Option (List Nat)) t =>
-    match acc with
+def G.updateFrom (dst src : G) : G :=
+  let ts := zipUnion dst.tables src.tables
+  let occ := match dst.tables, src.tables, ts with
+    | _ :: _, _ :: _, t0 :: _ => t0.countOnes
+    | _, _, _ => 0
+  { dst with tables := ts, occupied := occ }
+
+/-- `Update<Nodegraph> for KmerMinHash / KmerMinHashBTree`: `count` every hash of `mins()` -/
+def G.updateHashes (g : G) (hs : List Nat) : G := hs.foldl (fun g h => (g.count h).1) g
+
+/-- `matches`: number of the sketch's hashes the filter reports present -/
+def G.matches (g : G) (hs : List Nat) : Nat := (hs.filter (fun h => g.get h == 1)).length
+
+/-- `similarity` before the final `as f64 /`: (Σ |a ∩ b|, Σ |a ∪ b|) over the zipped tables -/
+def G.similarity (a b : G) : Nat × Nat :=
+  (((a.tables.zip b.tables).map (fun p => p.1.interCount p.2)).sum,
+   ((a.tables.zip b.tables).map (fun p => p.1.unionCount p.2)).sum)
+
+/-- `containment` before the final division: (Σ |a ∩ b| over the zipped tables, Σ |a| over all of `a`'s) -/
+def G.containment (a b : G) : Nat × Nat :=
+  (((a.tables.zip b.tables).map (fun p => p.1.interCount p.2)).sum,
+   (a.tables.map Table.countOnes).sum)
+
+/-! ## khmer two-bit k-mer hash (`_hash`, `twobit_repr`, `twobit_comp`, `uniqify_rc`)
+
+Nucleotides are their ASCII codes; `none` = `unimplemented!()` / index out of range. -/
+
+def twobitRepr (c : Nat) : Option Nat :=
+  if c == 65 then some 0 else if c == 67 then some 2 else if c == 71 then some 3 else if c == 84 then some 1 else none
+def twobitComp (c : Nat) : Option Nat :=
+  if c == 65 then some 1 else if c == 67 then some 3 else if c == 71 then some 2 else if c == 84 then some 0 else none
+
+/-- one loop step on a `u64`: `x <<= 2; x |= code` -/
+def shl2or (x code : Nat) : Nat := ((x <<< 2) % 2 ^ 64) ||| code
+
+/-- forward strand: `hash |= repr(kmer[0])`, then for i = 1.. `hash <<= 2; hash |= repr(kmer[i])` -/
+def encFwd : List Nat → Nat → Option Nat
+  | [], acc => some acc
+  | c :: cs, acc => match twobitRepr c with
     | none => none
-    | some bytes =>
-      let byteSize := t.size / 8 + 1
-      let div := byteSize / 4
-      let rem := byteSize % 4
-      if div > t.blocks.length then none else
-      let full := (t.blocks.take div).flatMap (fun b => le b 4)
-      if rem != 0 then
-        match t.blocks[div]? with
-        | none => none
-        | some b => some (bytes ++ le t.size 8 ++ full ++ (le b 4).take rem)
-      else some (bytes ++ le t.size 8 ++ full)) (some header)
+    | some r => encFwd cs (shl2or acc r)
+/-- reverse strand: the same loop over the k-mer read backwards with the complement code -/
+def encRev : List Nat → Nat → Option Nat
+  | [], acc => some acc
+  | c :: cs, acc => match twobitComp c with
+    | none => none
+    | some r => encRev cs (shl2or acc r)
+
+/-- `_hash`; the empty k-mer indexes out of range (`none`).  (For k = 1 the real code computes
+    `(ksize - 2) as isize`, which wraps in release builds and is an overflow panic in builds with
+    overflow checks; the model is the release behaviour and the generators start at k = 2 for the
+    checked build.) -/
+def hashKmer (kmer : List Nat) : Option Nat :=
+  match kmer with
+  | [] => none
+  | _ =>
+    match encFwd kmer 0, encRev kmer.reverse 0 with
+    | some f, some r => some (if f < r then f else r)
+    | _, _ => none
+
+def G.countKmer (g : G) (kmer : List Nat) : Option (G × Bool) := (hashKmer kmer).map g.count
+def G.getKmer (g : G) (kmer : List Nat) : Option Nat := (hashKmer kmer).map g.get
+
+/-! ## File format (`save_to_writer`, `from_reader`) -/
+
+/-- `n` as `bytes` little-endian bytes (`write_u32::<LittleEndian>(x as u32)`, `write_u64`, and the
+    in-memory bytes of a `u32` block on a little-endian target) -/
+def le (n bytes : Nat) : List Nat := (List.range bytes).map (fun i => (n >>> (8 * i)) % 256)
+
+def magic : List Nat := [0x4f, 0x58, 0x4c, 0x49, 4, 2]
+
+def G.header (g : G) : List Nat :=
+  magic ++ le g.ksize 4 ++ [g.tables.length % 256] ++ le g.occupied 8
+
+/-- the per-table part of `save_to_writer` as it is now:
+    `count.as_slice().get(div).copied().unwrap_or(0)` for the tail block -/
+def Table.save (t : Table) : Option (List Nat) :=
+  let byteSize := t.size / 8 + 1
+  let div := byteSize / 4
+  let rem := byteSize % 4
+  if div > t.blocks.length then none else                       -- `&count.as_slice()[..div]`
+  let full := (t.blocks.take div).flatMap (fun b => le b 4)
+  let tail := if rem != 0 then (le (t.blocks.getD div 0) 4).take rem else []
+  some (le t.size 8 ++ full ++ tail)
+
+/-- the per-table part before the repair: `count.as_slice()[div]` -/
+def Table.saveOld (t : Table) : Option (List Nat) :=
+  let byteSize := t.size / 8 + 1
+  let div := byteSize / 4
+  let rem := byteSize % 4
+  if div > t.blocks.length then none else
+  let full := (t.blocks.take div).flatMap (fun b => le b 4)
+  if rem != 0 then
+    match t.blocks[div]? with
+    | none => none                                              -- index out of bounds
+    | some b => some (le t.size 8 ++ full ++ (le b 4).take rem)
+  else some (le t.size 8 ++ full)
+
+def saveTablesWith (f : Table → Option (List Nat)) : List Table → Option (List Nat)
+  | [] => some []
+  | t :: ts =>
+    match f t with
+    | none => none
+    | some b =>
+      match saveTablesWith f ts with
+      | none => none
+      | some r => some (b ++ r)
+
+/-- `save_to_writer` -/
+def G.save (g : G) : Option (List Nat) :=
+  match saveTablesWith Table.save g.tables with
+  | none => none
+  | some d => some (g.header ++ d)
+
+/-- `save_to_writer` before the repair -/
+def G.saveOld (g : G) : Option (List Nat) :=
+  match saveTablesWith Table.saveOld g.tables with
+  | none => none
+  | some d => some (g.header ++ d)
 
 def fromLE (bs : List Nat) : Nat := bs.foldr (fun b acc => acc * 256 + b) 0
 
-partial def readTables (n : Nat) (bs : List Nat) (acc : List Table) : Option (List Table) :=
-  if n == 0 then some acc.reverse else
+/-- `read_u32_into::<LittleEndian>` for `n` blocks -/
+def readBlocks : Nat → List Nat → List Nat
+  | 0, _ => []
+  | n + 1, bs => fromLE (bs.take 4) :: readBlocks n (bs.drop 4)
+
+/-- the masking of `with_capacity_and_blocks` for block `i`: bits at or above `size` are cleared -/
+def maskBlock (size i b : Nat) : Nat :=
+  if 32 * (i + 1) ≤ size then b else if 32 * i ≥ size then 0 else b % 2 ^ (size - 32 * i)
+
+/-- `FixedBitSet::with_capacity_and_blocks`: resize to `⌈size/32⌉` blocks, clear the bits ≥ size -/
+def withCapacityAndBlocks (size : Nat) (blocks : List Nat) : Table :=
+  let nb := nblocks size
+  { size := size, blocks := ((blocks ++ List.replicate nb 0).take nb).mapIdx (maskBlock size) }
+
+/-- one table of `from_reader`: size, `size/8+1` data bytes as blocks + tail bytes -/
+def readTable (bs : List Nat) : Option (Table × List Nat) :=
   if bs.length < 8 then none else
   let size := fromLE (bs.take 8)
   let bs := bs.drop 8
@@ -62,21 +232,41 @@ partial def readTables (n : Nat) (bs : List Nat) (acc : List Table) : Option (Li
   let data := bs.take byteSize
   let nfull := byteSize / 4
   let rem := byteSize % 4
-  let blocks := (List.range nfull).map (fun i => fromLE ((data.drop (4*i)).take 4))
-  let blocks := if rem != 0 then blocks ++ [fromLE (data.drop (4*nfull))] else blocks
-  -- with_capacity_and_blocks: resize to nblocks, mask bits ≥ size
-  let nb := nblocks size
-  let blocks := (blocks ++ List.replicate nb 0).take nb
-  let blocks := blocks.mapIdx (fun i b => if 32*(i+1) ≤ size then b else if 32*i ≥ size then 0 else b % (2 ^ (size - 32*i)))
-  readTables (n-1) (bs.drop byteSize) ({ size := size, blocks := blocks } :: acc)
+  let blocks := readBlocks nfull data
+  let blocks := if rem != 0 then blocks ++ [fromLE (data.drop (4 * nfull))] else blocks
+  some (withCapacityAndBlocks size blocks, bs.drop byteSize)
 
+def readTables : Nat → List Nat → Option (List Table)
+  | 0, _ => some []
+  | n + 1, bs =>
+    match readTable bs with
+    | none => none
+    | some (t, rest) =>
+      match readTables n rest with
+      | none => none
+      | some ts => some (t :: ts)
+
+/-- `from_reader` on uncompressed bytes (`unique_kmers` is not stored: 0); trailing bytes are ignored -/
 def G.load (bs : List Nat) : Option G :=
-  if bs.take 6 != [0x4f, 0x58, 0x4c, 0x49, 4, 2] then none else
+  if bs.length < 19 then none else
+  if bs.take 6 != magic then none else
   let k := fromLE ((bs.drop 6).take 4)
   let n := bs.getD 10 0
   let occ := fromLE ((bs.drop 11).take 8)
-  match readTables n (bs.drop 19) [] with
+  match readTables n (bs.drop 19) with
   | none => none
-  | some ts => some { tables := ts, ksize := k, occupied := occ }
+  | some ts => some { tables := ts, ksize := k, occupied := occ, unique := 0 }
+
+/-! ## Well-formedness (the invariants every real `Nodegraph` satisfies) -/
+
+/-- a `FixedBitSet` as the crate maintains it: `⌈size/32⌉` blocks of 32 bits, no bit at or above
+    the length set; the length fits the `u64` field of the file -/
+def Table.WF (t : Table) : Prop :=
+  t.size < 2 ^ 64 ∧ t.blocks.length = nblocks t.size ∧ (∀ x ∈ t.blocks, x < 2 ^ 32) ∧
+  ∀ b, t.size ≤ b → t.get b = false
+
+/-- a nodegraph whose header fields fit their file fields -/
+def G.WF (g : G) : Prop :=
+  g.tables.length ≤ 255 ∧ g.ksize < 2 ^ 32 ∧ g.occupied < 2 ^ 64 ∧ ∀ t ∈ g.tables, t.WF
 
 end NG
